@@ -109,7 +109,7 @@ func genBigScanProgram(r *rand.Rand) []bt.Op {
 
 // C17 Bigtable: the choice of storage engine is unobservable to clients.
 func checkC17(c *Ctx) {
-	c.rule = "cases = sequential programs (mutation, read-modify-write, check-and-mutate, admin, GC, filtered-read and early-stopping-scan generators, seeded) run in lock-step on the btree, leveldb-mem and leveldb-disk engines; TLC (BtEquiv) requires the three recorded traces to agree event by event on every reply and read-back, and (BtTrace) each to be a behaviour of BtData; distinct = distinct program text; non-trivial = at least two requests"
+	c.rule = "cases = sequential programs (mutation, read-modify-write, check-and-mutate, admin, GC, filtered-read and early-stopping-scan generators, and scans of 300-800-row tables with a filter that fails on one chosen row, seeded) run in lock-step on the btree, leveldb-mem and leveldb-disk engines; TLC (BtEquiv) requires the three recorded traces to agree event by event on every reply and read-back, and (BtTrace) each to be a behaviour of BtData; distinct = distinct program text; non-trivial = at least two requests"
 	r := rand.New(rand.NewSource(c.Seed))
 	c.runModel("MC_BtAdmin", cfg{Spec: "Spec", Constants: withDump(map[string]string{"MaxCells": "2", "MaxDepth": "4", "MaxMods": "1"}, false, "1"),
 		Constraint: "Constr", View: "View", Invariants: []string{"InvCanonical"}, Properties: []string{"FailedIsNoop", "Frame"}}, 12, 20*time.Minute, false)
@@ -127,6 +127,7 @@ func checkC17(c *Ctx) {
 			progs = append(progs, g(r))
 		}
 	}
+	sampleAt := len(progs) - 1
 	for i := 0; i < 2+per/100; i++ { // after the others, so that their programs do not depend on this generator
 		progs = append(progs, genBigScanProgram(r))
 	}
@@ -136,7 +137,7 @@ func checkC17(c *Ctx) {
 			c.Nontrivial(describe(p))
 		}
 	}
-	c.Sample(map[string]interface{}{"source": "early-stopping-scan program (first requests)", "program": stripProg(progs[len(progs)-1][:min(8, len(progs[len(progs)-1]))])})
+	c.Sample(map[string]interface{}{"source": "early-stopping-scan program (first requests)", "program": stripProg(progs[sampleAt][:min(8, len(progs[sampleAt]))])})
 	// lock-step execution and comparison, in batches
 	batch := 40
 	var wg sync.WaitGroup
